@@ -1192,7 +1192,10 @@ def run(ctx: core.Check):
                 "operands below machine epsilon and above 2**53, sequences of DS structures with the same focal elements and different masses "
                 "(their p-box is referred to an independent belief/plausibility inverse, not to the library's conversion), operand "
                 "representations (integer-dtype / list p-box bounds, list parameters, Interval-object / vector / mixed focal elements), other "
-                "entry points (pba.<family>, stacking); results are kept alive and re-read, a sample of expressions is evaluated twice. "
+                "entry points (pba.<family>, stacking, Distribution.dist_from_sps with keywords in either order); results are kept alive and re-read, "
+                "a sample of expressions is evaluated twice; power-of-two scaled families (2^-580 .. 2^500); number operands as Fraction / big int / "
+                "float32 / float16 / longdouble and float32 bounds; p-boxes built from caller-owned float64 arrays that are then overwritten "
+                "(no shared memory with operands or results); the same expressions under np.errstate(all='raise') and warnings-as-errors. "
                 "Non-trivial = not (number op number); distinct on (form, dependency, operation, operands).")
     ctx.assumptions = ["a Distribution operand is represented by the quantile list its to_pbox() returns (scipy ppf values are parameters); "
                        "a DempsterShafer operand by the p-box of its to_pbox() (C08's subject)",
